@@ -236,7 +236,8 @@ PlacementTuples ==
                             st.apps[names[j]].server, st.apps[names[j]].expiry>>]
 
 InvC01 == Fresh => C01cap(st) /\ C01free(st) /\ C01single(st) /\ C01views(st)
-InvC03 == Fresh => C03post(st) /\ C03assign(st, PlacementTuples) /\ C03renew(st, PlacementTuples)
+InvC03 == Fresh => /\ C03post(st) /\ C03assign(st, PlacementTuples) /\ C03renew(st, PlacementTuples)
+                   /\ C03leaseEnd(st, PlacementTuples)
 InvC04 == Fresh => C04limit(st) /\ C04counters(st)
 InvC05 == Fresh => C05unique(st) /\ C05range(st) /\ C05placedHas(st) /\ C05pendingNone(st)
                    /\ C05avail(st)
